@@ -173,6 +173,7 @@ class Unit:
         self.fb = FxBuilder(an.facts, inline=an.inline_pred(fn), max_depth=an.max_depth, max_blocks=10 ** 6,
                             ai_mode=True, invariants=TYPE_INV, agg_watch=an.agg_watch)
         self.tree = self.fb.tree(fn)
+        an.spliced |= self.fb.spliced
         self.done_ctx = set()     # (obligation key, call chain) discharged
         self.assumed = {}         # assumption key -> uses
         self.open = {}            # key -> Obligation (not discharged on at least one path)
@@ -1774,11 +1775,13 @@ class Analyzer:
         self.linear_invariants = linear_invariants or {}
         self.assume = assume or {}
         self.inline_paths = 6000
+        self.small_paths = 200
         self.inline_steps = 600_000
         self.debug = None
         self.assumed = {}         # (kind, what, function def path) -> (class, reason)
         self.assumed_used = {}
         self.board_builders = set()
+        self.spliced = set()      # closures decided in the context of a modelled combinator (not entry points of their own)
         self.closure_arg = {}     # closure def path -> range of its argument (items of the Range it is mapped over)
         self.move_inv = None      # kind -> ((src lo, src hi), (dst lo, dst hi)), from the well-formedness reference (C06)
         self.move_gated = set()   # functions that build a Move and release it only after is_well_formed()
@@ -2009,7 +2012,10 @@ class Analyzer:
                 if cs is not None and cs.board_dep:
                     return True     # validity of the Board under construction may not be assumed: decide in context
             if len(callee.body.blocks) <= self.small:
-                return True
+                # few blocks, but closures spliced into it may make it large: a total function with many paths
+                # is used through its summary
+                cs = self.summary.get(callee.id)
+                return cs is None or cs.paths <= self.small_paths
             return False
         return pred
 
@@ -2037,10 +2043,17 @@ class Analyzer:
         self.stack.append(fid)
         try:
             # callees first, so that their partial/total status is known when this unit is built
+            deferred = []
             for cid in self.local_callees(fn):
                 if cid not in self.summary and cid not in self.stack:
-                    self.analyse(cid)
+                    if self.facts.fns[cid].kind == "Closure":
+                        deferred.append(cid)      # a closure created here: what it is called with is learnt from this function
+                    else:
+                        self.analyse(cid)
             u = Unit(self, fn).run()
+            for cid in deferred:
+                if cid not in self.summary and cid not in self.stack:
+                    self.analyse(cid)
         finally:
             self.stack.pop()
         self.summary[fid] = u
@@ -2059,6 +2072,14 @@ class Analyzer:
                 tid = f.get("inst") or (f.get("via") if "ext" in f else None)
                 if tid and self.is_local(tid) and tid not in out:
                     out.append(tid)
+                for h in f.get("hidden") or ():
+                    if self.is_local(h) and h not in out:
+                        out.append(h)           # closures handed to a std combinator: called by it
+            for st in b["stmts"]:
+                if st[0] == "assign" and st[2][0] == "agg" and st[2][1].get("k") == "closure":
+                    for inst in self.facts.instances(st[2][1].get("path", "")):
+                        if inst.id not in out:
+                            out.append(inst.id)
         return out
 
     def reachable(self, roots):
